@@ -90,6 +90,17 @@ func (f *c18Full) client(role string) {
 	case "npropose":
 		pt, _ := world.TrxToProto(world.MakeTx(R, A.Addr, "f3", nil, spice.Melange{Currency: 1}, 9205))
 		f.n1.Notary.Propose(ctx, pt)
+	case "npropose2":
+		// two proposals back to back from one client: the node's gossip loop and its per-peer senders overlap
+		for k, seq := range []int{9206, 9207} {
+			pt, _ := world.TrxToProto(world.MakeTx(R, A.Addr, fmt.Sprintf("f4-%d", k), nil, spice.Melange{Currency: 1}, seq))
+			f.n1.Notary.Propose(ctx, pt)
+		}
+	case "ncontract2":
+		for k, seq := range []int{9208, 9209} {
+			pt, _ := world.TrxToProto(world.MakeTx(A, B.Addr, fmt.Sprintf("f5-%d", k), []byte("contract"), spice.Melange{}, seq))
+			f.n1.Notary.Propose(ctx, pt)
+		}
 	case "ncontract":
 		pt, _ := world.TrxToProto(f.second)
 		f.n1.Notary.Propose(ctx, pt)
